@@ -1,4 +1,5 @@
 import string
+from xml.sax.saxutils import escape
 
 from flamapy.core.transformations import ModelToText
 from flamapy.metamodels.fm_metamodel.models import (
@@ -29,16 +30,17 @@ class SPLOTWriter(ModelToText):
 
 
 def fm_to_splot(model: FeatureModel) -> str:
+    # names go into an XML attribute and into the character data of two elements: escape & < > (and ")
     lines = []
     lines.append('<?xml version="1.0" encoding="UTF-8" standalone="no"?>')
-    model_name = model.root.name.replace(' ', '')
+    model_name = escape(model.root.name.replace(' ', ''), {'"': '&quot;'})
     lines.append(f'<feature_model name="{model_name}">')
     lines.append('<feature_tree>')
-    lines.append(f':r {safename(model.root.name)} ({safename(model.root.name)})')
-    lines.extend(add_features(model.root, 1))
+    lines.append(escape(f':r {safename(model.root.name)} ({safename(model.root.name)})'))
+    lines.extend(escape(line) for line in add_features(model.root, 1))
     lines.append('</feature_tree>')
     lines.append('<constraints>')
-    lines.extend(add_constraints(model.ctcs))
+    lines.extend(escape(line) for line in add_constraints(model.ctcs))
     lines.append('</constraints>')
     lines.append('</feature_model>')
     return '\n'.join(lines)
